@@ -398,12 +398,10 @@ class SQLiteProvider(DBAPIProvider):
 
     def commit(provider, connection, cache=None):
         in_transaction = cache is not None and cache.in_transaction
-        try:
-            DBAPIProvider.commit(provider, connection, cache)
-        finally:
-            if in_transaction:
-                cache.in_transaction = False
-                provider.release_lock()
+        DBAPIProvider.commit(provider, connection, cache)  # on failure the transaction stays open: the rollback that follows releases the lock
+        if in_transaction:
+            cache.in_transaction = False
+            provider.release_lock()
 
     def rollback(provider, connection, cache=None):
         in_transaction = cache is not None and cache.in_transaction
